@@ -256,7 +256,8 @@ func TestVX_C09(t *testing.T) {
 		kinds []string
 	}
 	readKinds := []string{"error", "garbage", "blank", "empty"}
-	comps := []comp{{"sensor", readKinds}, {"rpm", readKinds}, {"pwmread", readKinds}, {"pwmwrite", []string{"error", "ignored"}}, {"modewrite", []string{"error", "ignored"}}}
+	comps := []comp{{"sensor", readKinds}, {"rpm", readKinds}, {"pwmread", readKinds}, {"pwmwrite", []string{"error", "ignored"}}, {"modewrite", []string{"error", "ignored"}},
+		{"moderead", []string{"error", "garbage"}}} // moderead: the read-back of pwm_enable after a successful mode write fails
 	var singles []vxFault
 	for _, c := range comps {
 		for _, k := range c.kinds {
@@ -293,7 +294,7 @@ func TestVX_C09(t *testing.T) {
 					j := base
 					j.Faults = fs
 					for _, f := range fs {
-						if f.Component == "modewrite" && fk != "hwmon" {
+						if (f.Component == "modewrite" || f.Component == "moderead") && fk != "hwmon" {
 							return
 						}
 					}
